@@ -501,8 +501,14 @@ func checkInput(oc *fw.Outcome, in input, rows []row) {
 					}
 					return false
 				})
+				unitSrc, _ := dd14["unit"].(string)
+				delete(dd14, "unit")
+				if unitSrc == "" {
+					unitSrc = in.src
+				}
+				// options are attributed on the smallest failing unit: a file can hold several causes
 				notIdem := func(c *config.FormatConfig) bool {
-					o1, s1, _ := Format(in.src, c)
+					o1, s1, _ := Format(unitSrc, c)
 					if s1 != "" {
 						return false
 					}
@@ -510,11 +516,6 @@ func checkInput(oc *fw.Outcome, in input, rows []row) {
 					return s2 == "" && o1 != o2
 				}
 				k14 := "idem:" + kind + "/" + class + minimalOption(in, rw, notIdem)
-				unitSrc, _ := dd14["unit"].(string)
-				delete(dd14, "unit")
-				if unitSrc == "" {
-					unitSrc = in.src
-				}
 				if strings.Contains(unitSrc, " \n x\"") {
 					// the smallest failing unit contains a multi-line long string: its continuation
 					// lines are re-indented on every pass (one root cause, see known findings)
@@ -528,7 +529,8 @@ func checkInput(oc *fw.Outcome, in input, rows []row) {
 						continue
 					}
 					flip(&c2, opt)
-					if !notIdem(&c2) {
+					// ... or it shows under the default configuration with that option alone switched on
+					if !notIdem(&c2) || strings.HasSuffix(k14, "@flip:"+opt) {
 						k14 = "option:" + opt + "/idem"
 					}
 				}
@@ -790,10 +792,17 @@ func isSpecial(c string) bool {
 	t := strings.TrimLeft(c, " */#")
 	return strings.HasPrefix(t, "FASTLY") || strings.HasPrefix(t, "falco-ignore") || strings.HasPrefix(t, "@scope") || strings.HasPrefix(t, "@plugin")
 }
-func normSpecial(c string) string { return strings.TrimSpace(strings.TrimLeft(c, " */#")) }
+func normSpecial(c string) string {
+	t := strings.TrimSpace(strings.TrimLeft(c, " */#"))
+	if strings.HasPrefix(t, "FASTLY") {
+		// only `#FASTLY` is a macro: the marker belongs to the text that must survive
+		return strings.TrimSpace(c)
+	}
+	return t
+}
 func specialKind(c string) string {
 	switch {
-	case strings.HasPrefix(c, "FASTLY"):
+	case strings.HasPrefix(strings.TrimLeft(c, " */#"), "FASTLY"):
 		return "FASTLY-macro"
 	case strings.HasPrefix(c, "falco-ignore"):
 		return "falco-ignore"
@@ -850,12 +859,20 @@ func fromProgram(r *rand.Rand, p *gen.Program, docOnly bool, single int) input {
 				c.Style = "/*"
 			}
 		}
+		// trailing position: the comment stays on the line of the statement / brace before it
+		// (`set a = b; // c`, `} // c`): the same placeholder, the most common layout in practice
+		sameLine := gap > 0 && p.Toks[gap-1].EOLAfter && len(pl.Comments[gap]) == 0 && r.Intn(3) == 0
+		c.SameLine = sameLine
 		pl.Comments[gap] = append(pl.Comments[gap], c)
 		// a comment after the last declaration (end of file) is not a documented placeholder
 		slot := "tail"
 		doc := false
 		if gap < len(p.Toks) {
 			slot, doc = p.Toks[gap].Slot, p.Toks[gap].Doc
+		}
+		if sameLine {
+			// the placeholder is named after the token the comment trails
+			slot = "after:" + p.Toks[gap-1].Slot
 		}
 		if doc {
 			in.serials = append(in.serials, serial)
